@@ -748,7 +748,7 @@ func (state *RuntimeState) setNewAuthCookie(w http.ResponseWriter,
 	return cookieVal, nil
 }
 
-func (state *RuntimeState) updateAuthCookieAuthlevel(w http.ResponseWriter, r *http.Request, authlevel int) (string, error) {
+func (state *RuntimeState) updateAuthCookieAuthlevel(w http.ResponseWriter, r *http.Request, username string, authlevel int) (string, error) {
 	var authCookie *http.Cookie
 	for _, cookie := range r.Cookies() {
 		if cookie.Name != authCookieName {
@@ -760,8 +760,18 @@ func (state *RuntimeState) updateAuthCookieAuthlevel(w http.ResponseWriter, r *h
 		err := errors.New("cannot find authCookie")
 		return "", err
 	}
+	// The session to upgrade must be the one of the user the request was
+	// authenticated as: a request can carry the client certificate of one
+	// user together with the session cookie of another.
+	cookieInfo, err := state.getAuthInfoFromAuthJWT(authCookie.Value)
+	if err != nil {
+		return "", err
+	}
+	if cookieInfo.Username != username {
+		err := errors.New("authCookie does not belong to the authenticated user")
+		return "", err
+	}
 
-	var err error
 	cookieVal, err := state.updateAuthJWTWithNewAuthLevel(authCookie.Value, authlevel)
 	if err != nil {
 		return "", err
